@@ -44,6 +44,10 @@ fn run(input: RunInput) -> ScenFuture {
         }
         let mut cfg = base_config(6_000, Some(1_500));
         cfg.connect_timeout_ms = Some(1_500);
+        // (frequent connectivity checks: idle until a High entry appears in the phase at the end)
+        cfg.connectivity_check_interval_ms = Some(200);
+        cfg.connection_backoff_ms = Some(100);
+        cfg.max_connection_backoff_ms = Some(200);
         let mut nodes = Vec::new();
         let mut subs = Vec::new();
         for (i, (p, alt)) in names.iter().enumerate() {
@@ -130,8 +134,11 @@ fn run(input: RunInput) -> ScenFuture {
             if cert_names.len() != 1 || non_dns.is_some() {
                 w.probe("adversarial-certificate-with-unusual-name-set");
             }
+            // (one attempt in five is made with the listener's *own* key - the same operator key on
+            // two networks: "whatever their keys")
+            let k_this = if r.gen_bool(0.2) { w.probe("adversary-holds-the-listener's-key"); nodes[l].key } else { k_adv };
             let adv = adv_endpoint(&w, AdvSpec {
-                idx: 9, port: 7200 + k as u16, chain: vec![gen_cert_shape(&k_adv, &cert_names, non_dns)], sign_key: k_adv, present_client_cert: true,
+                idx: 9, port: 7200 + k as u16, chain: vec![gen_cert_shape(&k_this, &cert_names, non_dns)], sign_key: k_this, present_client_cert: true,
                 idle_ms: 6_000, keep_alive_ms: None, max_bidi: 10,
             });
             let res = if no_sni { adv.dial_no_sni(nodes[l].addr, 1_200).await } else { adv.dial(nodes[l].addr, &sni, 1_200).await };
@@ -284,12 +291,72 @@ fn run(input: RunInput) -> ScenFuture {
             retired_l.push(l2);
             sleep_ms(50).await;
         }
+        // ---- background dials use the primary name like any other dial, attempt after attempt: a node
+        //      with an alternate name gets the other node as a High peer behind a dead address and
+        //      its real one (the first attempt fails, the second reaches it) ----
+        if !w.violated() && !lossy && w.flag("background_dial_after_a_failed_attempt", 0.3) {
+            for d in 0..2usize {
+                let l = 1 - d;
+                if names[d].1.is_none() || nodes[d].net.peers().contains(&nodes[l].peer_id) {
+                    continue;
+                }
+                let model = accepts(l, &names[d].0);
+                nodes[d].net.known_peers().insert(anemo::types::PeerInfo { peer_id: nodes[l].peer_id, affinity: anemo::types::PeerAffinity::High, address: vec![addr(240 + d as u8).into(), nodes[l].addr.into()] });
+                // first attempt: connect timeout at the dead address, back-off, second attempt, and once more
+                sleep_ms(1_500 + 200 + 400 + 1_500 + 200 + 400 + 1_000).await;
+                let connected = nodes[d].net.peers().contains(&nodes[l].peer_id) || nodes[l].net.peers().contains(&nodes[d].peer_id);
+                nodes[d].net.known_peers().remove(&nodes[l].peer_id);
+                w.event(format!("background {}:{}", if model { "compatible" } else { "foreign" }, if connected { "ok" } else { "err" }));
+                if connected && !model {
+                    w.violate("different-networks-connected", format!("background-dial dialer=({},{:?}) listener=({},{:?})", names[d].0, names[d].1, names[l].0, names[l].1), format!("a node with primary {:?} and alternate {:?} background-dialed a High peer of network ({:?},{:?}) behind a dead and a live address and ended up connected to it", names[d].0, names[d].1, names[l].0, names[l].1));
+                }
+                if connected {
+                    let _ = nodes[d].net.disconnect(nodes[l].peer_id);
+                    sleep_ms(100).await;
+                }
+                w.probe("background-dial-after-a-failed-attempt");
+            }
+        }
+        // ---- a node that gives up its alternate name: restarted with the same key and primary name
+        //      and no alternate, it accepts what its configuration says now, not what an earlier
+        //      incarnation in this process accepted ----
+        let mut restarted = Vec::new();
+        if !w.violated() && names[0].1.is_some() && w.flag("restart_without_the_alternate_name", 0.3) {
+            let old_alt = names[0].1.clone().unwrap();
+            let (key0, addr0) = (nodes[0].key, nodes[0].addr);
+            let n0 = nodes.remove(0);
+            let _ = tokio::time::timeout(std::time::Duration::from_secs(30), n0.net.shutdown()).await;
+            drop(n0);
+            sleep_ms(50).await;
+            if !w.fabric.is_bound(addr0) {
+                let mut spec = w.spec_exact(1, cfg.clone());
+                spec.key = key0;
+                spec.name = names[0].0.clone();
+                spec.alt_name = None;
+                if let Ok(n) = w.start_node(spec, Svc::echo(&w)) {
+                    let adv = adv_endpoint(&w, AdvSpec {
+                        idx: 9, port: 7500, chain: vec![gen_cert(&k_adv, &old_alt)], sign_key: k_adv, present_client_cert: true,
+                        idle_ms: 6_000, keep_alive_ms: None, max_bidi: 10,
+                    });
+                    let res = adv.dial(n.addr, &old_alt, 1_200).await;
+                    if res.is_ok() && old_alt != names[0].0 {
+                        w.violate("adversarial-name-combination-admitted", "sni_accepted=false cert_accepted=false after-restart-without-alternate", format!("a listener restarted with primary {:?} and no alternate admitted a dialer of network {old_alt:?}, the alternate name its earlier incarnation had", names[0].0));
+                    }
+                    if let Ok(c) = res {
+                        c.close(0u32.into(), b"");
+                    }
+                    retired.push(adv);
+                    w.probe("restart-without-the-alternate-name");
+                    restarted.push(n);
+                }
+            }
+        }
         if names[0].0 != names[1].0 || names[0].1.is_some() || names[1].1.is_some() { w.mark_overlap(); }
         w.sample("names", json!(samples));
         let out = w.finish();
         drop(retired);
         drop(retired_l);
-        drop((nodes, lst));
+        drop((nodes, lst, restarted));
         out
     })
 }
